@@ -6,8 +6,8 @@ CONSTANTS
   MaxUid = 1
   MaxCode = 1
   NFlagSets = 2
-  SyncLit = FALSE
-  Kinds = {"SELECT", "FETCH", "STORE", "UIDFETCH"}
+  SyncLit = TRUE
+  Kinds = {"STATUS", "APPEND", "NOOP", "SELECT"}
   Greetings = {"PREAUTH"}
   SimDepth = 0
   Count = FALSE
